@@ -3,7 +3,7 @@
    tools/mutation_run.py checks <mutants.jsonl> <tests-results.jsonl> <results.jsonl> [--stride k] [--offset o]
 
 Mutation analysis of the checks (a measurement of detection, not part of the deciding method).
-Phase `tests`: every mutant is built as a symlink copy of /repo/src with one file replaced (under /tmp/mu, removed
+Phase `tests`: every mutant is built as a copy of /repo/src with one file replaced (under /tmp/mu, removed
 afterwards) and the 111 baseline tests are run against it; survivors are the mutants the test-suite cannot see.
 Phase `checks`: for every test-surviving mutant (optionally a deterministic stride of them) the quick checks of the
 properties anchored in the mutated file are run with VERIF_FAIL_FAST=1 (stop at the first unexplained failure) until one
@@ -39,7 +39,7 @@ def build(m, tag):
     d = f'{SCR}/{tag}'
     shutil.rmtree(d, ignore_errors=True)
     os.makedirs(d)
-    subprocess.run(['cp', '-rs', '/repo/src', f'{d}/src'], check=True)
+    subprocess.run(['cp', '-r', '/repo/src', f'{d}/src'], check=True)   # real files: the harness checks realpath
     for x in ('tests', 'pyproject.toml', 'setup.py', 'README.md'):
         if os.path.exists(f'/repo/{x}'):
             os.symlink(f'/repo/{x}', f'{d}/{x}')
